@@ -159,6 +159,9 @@ def normalize_hostname(hostname, normalize_amp=True):
     hostname = hostname.strip().lower()
     hostname = CONTROL_CHARS_RE.sub("", hostname)
 
+    # NOTE: like normalize_url, "xn--amp--epa.com" is "amp-é.com"
+    hostname = decode_punycode_hostname(hostname)
+
     pattern = IRRELEVANT_SUBDOMAIN_AMP_RE if normalize_amp else IRRELEVANT_SUBDOMAIN_RE
 
     hostname = pattern.sub("", hostname)
@@ -440,6 +443,9 @@ def normalize_url(
         # NOTE: what follows "amp-" can be an irrelevant subdomain too
         if strip_irrelevant_subdomains:
             hostname = IRRELEVANT_SUBDOMAIN_AMP_RE.sub("", hostname) or hostname
+
+        # NOTE: or a punycode label, that was hidden by the prefix
+        hostname = decode_punycode_hostname(hostname)
 
     # Dropping trailing slash
     if strip_trailing_slash and path.endswith("/"):
